@@ -119,16 +119,21 @@ rfc1055_encode_octet(Sink *sink, unsigned char data)
     return rc;
 }
 
+/* Result of rfc1055_decode_octet() for an escape octet followed by anything
+ * but one of the two escape codes. The decoder reports that to its caller as
+ * -EILSEQ; inside, it must not be mistaken for a source that answers -EILSEQ
+ * itself: Such an answer is a source error like any other (nothing was
+ * consumed, the decoder's state is not touched). */
+#define RFC1055_INVALID_ESCAPE 3
+
 static inline int
 rfc1055_decode_octet(Source *source, unsigned char *data)
 {
     int rv = 1;
     unsigned char first;
     /* Guarantee that the data return value is initialised, no matter the
-     * behaviour of the source implementation. This is important with the
-     * EILSEQ return code, which this SLIP decoder uses. While unlikely that
-     * the source returns that particular error code, it is not impossible.
-     * Modern compilers even warn about this. */
+     * behaviour of the source implementation. Modern compilers even warn
+     * about this. */
     *data = 0u;
     MAYBE_RETURN(source_get_octet(source, &first));
     switch (first) {
@@ -140,7 +145,7 @@ rfc1055_decode_octet(Source *source, unsigned char *data)
         switch (second) {
         case ESC_EOF: *data = RAW_EOF; break;
         case ESC_ESC: *data = RAW_ESC; break;
-        default:      *data = second;  return -EILSEQ;
+        default:      *data = second;  return RFC1055_INVALID_ESCAPE;
         }
     }
         break;
@@ -213,7 +218,7 @@ rfc1055_decode(RFC1055Context *ctx, Source *source, Sink *sink)
         case RFC1055_NORMAL: /* FALLTHROUGH */
         default: {
             const int rc = rfc1055_decode_octet(source, &data);
-            if (rc == -EILSEQ) {
+            if (rc == RFC1055_INVALID_ESCAPE) {
                 if (BIT_ISSET(ctx->flags, RFC1055_WITH_SOF)) {
                     ctx->state = (data == RAW_EOF)
                         ? RFC1055_SEARCH_FOR_START
@@ -223,7 +228,7 @@ rfc1055_decode(RFC1055Context *ctx, Source *source, Sink *sink)
                         ? RFC1055_NORMAL
                         : RFC1055_SEARCH_FOR_END;
                 }
-                return rc;
+                return -EILSEQ;
             } else if (rc < 0) {
                 /* Forward source error to caller. */
                 return rc;
